@@ -276,6 +276,19 @@ def st_node(draw, kind, depth, cfg):
         if all(a is None for a in axes):
             axes[draw(st.integers(0, npar - 1))] = 0
         return {"k": "vmap", "g": g, "axes": axes, "n": n}
+    if kind == "scan" and not cfg.get("discrete_only", False) and draw(st.integers(0, 2)) == 0:
+        # random-walk kernels: the density of the step depends on the incoming carry and the new carry is a
+        # function of the step's own choice (not of the old carry) -- the shape under which an edit of one
+        # iteration changes the score of the next one while the index-edit precondition still holds
+        dname = draw(st.sampled_from([n_ for n_ in (cfg.get("dists") or ["normal", "laplace"]) if n_ in ("normal", "laplace")] or ["normal"]))
+        a = draw(st.sampled_from([0.5, 1.0, -1.0, 1.5]))
+        loc = ["add", ["mul", ["c", a], ["v", 0]], ["v", 1]]
+        stmts = [{"addr": "z", "callee": {"k": "dist", "name": dname}, "args": [loc, ["pos", draw(st_expr(0, 0))]]}]
+        if draw(st.booleans()):
+            stmts.append({"addr": "w", "callee": {"k": "dist", "name": "normal"}, "args": [["v", 2], ["pos", ["v", 0]]]})
+        carry = draw(st.sampled_from([["v", 2], ["add", ["v", 2], ["v", 1]], ["mul", ["c", 0.5], ["v", 2]]]))
+        kern = {"k": "static", "n": 2, "stmts": stmts, "ret": ["pair", carry, draw(st_expr(2 + len(stmts), 1))]}
+        return {"k": "scan", "g": kern, "n": draw(st.integers(max(2, cfg.get("scan_nmin", 1)), max(2, cfg.get("nmax", 3))))}
     if kind == "scan":
         kern = draw(st_static(2, depth, cfg, ret="pair", max_stmts=2))
         return {"k": "scan", "g": kern, "n": draw(st.integers(cfg.get("scan_nmin", 1), cfg.get("nmax", 3)))}
